@@ -86,6 +86,7 @@ def run(chk, replay=None):
     samples = []
     link_items = []
     link_meta = []
+    hidden_items, hidden_meta = [], []
     try:
         OBJ = [("strong", 3, 0), ("weak", 1, 0), ("unique", 2, 0), ("common", 4, 8), ("common", 4, 32)]
         DSO = [("dstrong", 3, 0), ("dweak", 1, 0)]
@@ -150,6 +151,44 @@ def run(chk, replay=None):
             link_meta.append((combo, cands, obs, o[-300:] if rc != 0 else ""))
             if len(samples) < 5 and len(combo) == 3 and links % 9 == 0:
                 samples.append({"link_order": [c[0] + (str(c[2]) if c[2] else "") for c in cands], "observed": obs})
+        # the same with a HIDDEN (and a protected) reference: a shared library cannot satisfy it, so the choice is made among the
+        # definitions from objects and archive members only, wherever the libraries stand on the command line (which archive
+        # members get loaded is C03's subject: every candidate here is a plain file)
+        for vis in ("hidden", "protected"):
+            open(f"{d}/main_{vis}.s", "w").write(f".globl _start\n.{vis} sym\n.text\n_start: mov $60,%eax\n xor %edi,%edi\n syscall\n.data\nref: .quad sym\n")
+            sh(f"as -o {d}/main_{vis}.o {d}/main_{vis}.s", check=True)
+        hcombos = [c for c in combos if any(pool[i][0].startswith("d") for i in c) and any(not pool[i][0].startswith("d") for i in c)]
+        if chk.tier == "quick":
+            hcombos = chk.rng.sample(hcombos, min(len(hcombos), 40))
+        for hi, combo in enumerate(hcombos):
+            cands = [pool[i] for i in combo]
+            vis = "hidden" if hi % 2 == 0 else "protected"
+            files = []
+            for j, (k, code, sz) in enumerate(cands):
+                f_ = mk(k, sz, 0x1100 + 17 * j, j)
+                files.append(f_)
+            outp = f"{d}/outh"
+            rc, o = sh(f"{wild} --no-gc-sections -o {outp} {d}/main_{vis}.o " + " ".join(files), timeout=60)
+            links += 1
+            reg = [(j, c) for j, c in enumerate(cands) if not c[0].startswith("d")]
+            if rc != 0:
+                obs = ["err"]
+            else:
+                e = elfread.Elf(outp)
+                syms = [s_ for s_ in e.symbols(".symtab") if s_["name"] == "sym"]
+                s0 = syms[0] if syms else None
+                if s0 is None or s0["shndx"] == 0:
+                    obs = ["dyn"]
+                else:
+                    sec = e.shdrs[s0["shndx"]] if s0["shndx"] < len(e.shdrs) else None
+                    if sec is not None and sec["type"] == 8:
+                        obs = ["common", s0["size"]]
+                    else:
+                        raw = e.read_va(s0["value"], 4)
+                        obs = ["marker", struct.unpack("<I", raw)[0] if raw else -1]
+            coqc = "[" + "; ".join(f"C false {cstr(code, sz)}" for j, (k, code, sz) in reg) + "]"
+            hidden_items.append(f"r2n (select false {coqc})")
+            hidden_meta.append((cands, reg, obs, vis, o[-300:] if rc != 0 else ""))
         # undefined references
         open(f"{d}/wk.s", "w").write(".globl _start\n.weak undef_weak\n.text\n_start: mov $60,%eax\n xor %edi,%edi\n syscall\n.data\nref: .quad undef_weak\n")
         sh(f"as -o {d}/wk.o {d}/wk.s", check=True)
@@ -208,6 +247,22 @@ def run(chk, replay=None):
                     chk.violation(f"{why}: link order {rep['link_order']} gives {obs}", rep)
                 else:
                     chk.tie_break("link-level model/implementation disagree", rep)
+    if hidden_items:
+        rc, out = coq_eval(f"c02h_{os.getpid()}", "Eval vm_compute in [" + ";\n".join(hidden_items) + "].\n", IMPORTS, timeout=600)
+        if rc != 0:
+            chk.tie_break("model evaluation failed (coqc, hidden references)", out[-1500:])
+        else:
+            for (cands, reg, obs, vis, err), m in zip(hidden_meta, parse_coq_value(out)):
+                nontrivial += 1
+                if m[0] == 1:
+                    exp = ["err"]
+                else:
+                    j, (k, code, sz) = reg[m[1]]
+                    exp = ["common", sz] if code == 4 else ["marker", 0x1100 + 17 * j]
+                if exp != obs and not (exp[0] == "common" and obs[0] == "common" and obs[1] >= exp[1]):
+                    rep = {"link_order": [c[0] + (str(c[2]) if c[2] else "") for c in cands], "reference": vis, "observed": obs, "model": exp, "stderr": err}
+                    chk.violation(f"a {vis} reference does not bind to the definition chosen among the objects' definitions (shared libraries cannot satisfy it): "
+                                  f"link order {rep['link_order']} gives {obs}, expected {exp}", rep)
     chk.cov.update({
         "evaluations": len(lists) + links, "distinct_nontrivial": nontrivial + sum(1 for l in lists if len(l) > 1),
         "rule": "(a) candidate lists over {undef, weak, unique, strong, common 4/8/16}: all lists of length <= 3 (+ all / 400 sampled of length 4) through the real selector; "
